@@ -29,7 +29,7 @@ pub struct RunOutcome {
 pub fn active_for(profile: &str) -> Vec<&'static str> {
     match profile {
         "C01" => vec!["C01"],
-        "C02" => vec!["C02"],
+        "C02" => vec!["C02", "C15"],
         "C03" => vec!["C03"],
         "C04" => vec!["C04"],
         "C05" => vec!["C05"],
@@ -100,6 +100,11 @@ impl Driver {
         // C11 profile: admission through the heartbeat is the observation point of the header
         // rules; a mismatch between admitted blocks/headers and the model's header verdicts is
         // a C11 violation.
+        if self.profile == "C02" && v.property == "C15" {
+            v.kind = format!("fees-not-at-best-tip:{}", v.kind);
+            v.property = "C02".into();
+            return v;
+        }
         if self.profile == "C11" && v.property == "C10" {
             v.kind = format!("header-admission:{}", v.kind);
             v.property = "C11".into();
